@@ -98,8 +98,11 @@ CHECKS = {
             "formatDuration are modelled in Flocq (frac_float) and compared with the implementation.",
             "Rocq proof over a Gallina string-level model + extracted-model differential correspondence",
             "field-width facts (two digits for values < 100, k digits for values < 10^k) are finite sweeps closed by vm_compute; "
-            "formatDurationSTL's float64 Hours()/Minutes()/Seconds() floors are modelled by integer division (justified by the "
-            "correspondence and the implementation sweep, not by a Flocq proof)."),
+            "formatDurationSTL's float64 Hours()/Minutes()/Seconds() floors are transcribed in Flocq binary64 (Model/DurFloat.v, "
+            "Model/StlFloat.v) and PROVED equal to the integer model below 1024 h for every frame rate (C16_stl_float_path, "
+            "C16_stl_float_fields; the frame field itself is integer arithmetic in the code); the 4-byte cue-boundary form on arbitrary "
+            "instants: floor frame, within 1 ns, second write identical, monotone (C16_stl_bytes); the float theorems print the "
+            "standard-library Reals axioms."),
     "C15": (True,
             "Theorems (Flocq, binary64 with round-to-nearest-even): for all reference points and boundaries in [0,24h] with exact slope "
             "in [1/2,2] (either orientation), the value computed in the code's evaluation order is within 3 ns of the exact affine map "
@@ -115,20 +118,27 @@ CHECKS = {
             "tokens delivered by the line scanner are exactly lines(data) (LF, CRLF, lone CR each one break), so the SubRip, WebVTT and "
             "SSA/ASS reader models are schedule-independent; the split function is stable under extension of the buffer; an STL block "
             "present in full is returned whole for every schedule, fewer bytes give end-of-file (none) or an error (some), and the STL "
-            "reader with its blocks obtained through readNBytes under ANY schedule equals the one-shot reader. Tie: the scanner, "
+            "reader with its blocks obtained through readNBytes under ANY schedule equals the one-shot reader; with bufio.Scanner's "
+            "buffer limit (Kit/ScanLim.v, max = 65536 as newScanner never calls Buffer): within the bound the tokens are lines(data) for "
+            "every schedule, the exact boundary per line end (LF 65535, CR LF / CR 65534, last line 65535) is proved and matches a probe "
+            "on the library, and the result depends on the schedule only for a last line that exactly fills the buffer. Tie: the scanner, "
             "readNBytes and the STL reader under harness-controlled schedules against the extracted models (exhaustive over "
             "{a,CR,LF}^<=5 x every split); every reader of every format is run on every single split point / one-byte reads / random "
             "chunkings / 4096-65536-aligned splits and compared with its one-shot result.",
             "Rocq proof over scanner/block-reader/reader models + extracted-model correspondence + exhaustive split-point enumeration",
-            "bufio.Scanner's buffer mechanics (growth, compaction, ErrTooLong) are a library contract: the model is the abstract scanner "
-            "in which each read appends an arbitrary prefix of the unread bytes; TTML hands the stream to xml.Decoder and teletext to "
+            "bufio.Scanner's buffer growth/compaction is a library contract: the models are the abstract scanner in which each read appends "
+            "an arbitrary prefix of the unread bytes, and its capacity-limited refinement (io.ErrNoProgress after 100 empty reads not "
+            "modelled); TTML hands the stream to xml.Decoder and teletext to "
             "astits: their read loops are named contracts (the models start after them and have no schedule parameter), covered by the "
             "schedule enumeration on the implementation."),
     "C18": (True,
             "Theorems: the SubRip, WebVTT and SSA/ASS reader models return an error whenever the scanner stopped on an error (a read "
             "fault at any offset under any schedule, or an over-long line), whatever was delivered before; the STL reader returns an "
             "error for a stream failing after any prefix under any schedule - also exactly on a block boundary - and for an end-of-file "
-            "inside a block; a writer modelled as its list of checked Write calls fails when the destination fails before the end of "
+            "inside a block (both with the error proved not to be the out-of-fuel one); a line longer than the scanner's buffer makes "
+            "every line-based reader fail under every schedule after delivering a prefix (C18_too_long), and over both ways a stream "
+            "can end and for any destination a successful return means the complete document (C18_success_means_complete, "
+            "C18_limit_success_means_complete, C18_writes_ok_complete); a writer modelled as its list of checked Write calls fails when the destination fails before the end of "
             "the document and hands over every byte otherwise: instantiated for the SubRip and WebVTT writers (one Write), the SSA/ASS "
             "writer (up to three), the STL writer (one per block), and the TTML writer for ANY cut of its bytes into checked Writes. "
             "Tie: every reader is run with a read fault injected at every offset (sampled on big documents; TTML up to the end of the "
@@ -162,7 +172,9 @@ CHECKS = {
             "stated on CHECKED models (Model/SrtC.v, VttC.v, DurC.v: every Go index / slice / pointer dereference is an explicit checked "
             "access behind the code's own guard, Panic otherwise; proved equal to the pattern-matching models and never to Panic: "
             "C08_*_checked_*; removing a guard makes Panic reachable: C08_unguarded_index_panics) and those checked models are what the "
-            "correspondence suites run. Tie and the rest of the quantifier on the "
+            "correspondence suites run; the same for stl.go (Model/StlC.v, StlCW.v: slice indices, slicing, nil dereferences, the "
+            "divisions by the frame rate and by MaxRows, the diacritic swap, and the type assertions on BiMap values whose dynamic types "
+            "are probed from the code on every run; C08_stl_checked_*, unguarded examples). Tie and the rest of the quantifier on the "
             "implementation: every reader (all option values, and the extension-dispatching opener) on valid documents, structure-aware "
             "mutations/truncations/splices, wrong-format documents, random bytes, transport streams with malformed PES payloads / data "
             "units / teletext packets inside a valid packet layer (the teletext model is value-compared on the hostile payloads); every "
